@@ -85,6 +85,8 @@ def _install(interp, calls, level="simulate"):
 def cost_job(interp, c, case):
     N, Mm, T, p, cond_kind, single = case[:6]
     level = case[6] if len(case) > 6 else "simulate"
+    if single and N == 1 and cond_kind == "list":
+        cond_kind = "dict"          # a single data frame takes one dictionary of conditions (the list form is per trajectory of a list)
     calls = []
     IS = _install(interp, calls, level)
     Tm = interp.load("bioscrape.types")
@@ -252,7 +254,8 @@ def check(tier):
         "x^(1/p) for p = 2,3 is an uninterpreted sqrt/pow shared by code and oracle",
     ]
     mut = [
-        ("params-not-reset", dict(module="bioscrape.pid_interfaces", old="            self.LL_det.set_init_params(self.default_parameters)\n", new="            pass\n")),
+        ("theta-not-applied", dict(module="bioscrape.pid_interfaces", old="            self.LL_det.set_init_params(params_dict)\n            if self.debug:\n                print('current sample:', params_dict)\n            #apply cost function\n            LL_det_cost",
+                                   new="            if self.debug:\n                print('current sample:', params_dict)\n            #apply cost function\n            LL_det_cost")),
         ("wrong-measurement-index", dict(module="bioscrape.inference", old="                    dif = measurements[n, t, i] - ans[t,self.meas_indices[i]]",
                                          new="                    dif = measurements[n, t, i] - ans[t,self.meas_indices[0]]")),
         ("initial-state-of-first-trajectory", dict(module="bioscrape.inference", old="            self.csim.set_initial_state(self.get_initial_state(n))",
